@@ -131,6 +131,7 @@ vh::Outcome run_trigger(const vh::Case& c) {
     reset_case_globals();
     vh::Outcome out;
     bool init_active = c.cfg.size() > 0 && c.cfg[0] % 3 == 2;
+    bool untimed_wait_ok_override = false;
     // controller = fiber slot 0; its ops: code%3
     std::vector<int> ctl;
     if (!c.fibers.empty()) for (auto& op : c.fibers[0]) ctl.push_back(op.code % 3);
@@ -144,8 +145,25 @@ vh::Outcome run_trigger(const vh::Case& c) {
     };
     for (int k : ctl) apply(fin, k);
     bool second_triggerer = c.cfg.size() > 1 && c.cfg[1] % 3 == 1 && c.fibers.size() > 1 && !c.fibers[1].empty();
-    bool untimed_wait_ok = !fin.A || fin.T;
-    bool untimed_wact_ok = fin.A;
+    // mode 2: a second thread that only calls reset().  Racing controllers make per-call results order-dependent, so in this mode only
+    // two things are judged: every fiber terminates (all waits are timed), and the final (active, triggered) state is one that SOME
+    // sequential order of the two threads' calls produces.
+    bool second_resetter = c.cfg.size() > 1 && c.cfg[1] % 3 == 2 && c.fibers.size() > 1 && !c.fibers[1].empty();
+    std::set<int> reach2;                       // resetter mode: final states of all sequential interleavings
+    bool all_finals_inactive = false;
+    if (second_resetter) {
+        int nres = (int)c.fibers[1].size();
+        std::function<void(size_t, int, TvModel)> go = [&](size_t i, int r, TvModel m) {
+            if (i == ctl.size() && r == nres) { reach2.insert((m.A ? 2 : 0) | (m.T ? 1 : 0)); return; }
+            if (i < ctl.size()) { TvModel m2 = m; apply(m2, ctl[i]); go(i + 1, r, m2); }
+            if (r < nres) { TvModel m2 = m; apply(m2, K_RESET); go(i, r + 1, m2); }
+        };
+        TvModel m0; m0.A = init_active; go(0, 0, m0);
+        all_finals_inactive = true; for (int st : reach2) if (st & 2) all_finals_inactive = false;
+        untimed_wait_ok_override = !all_finals_inactive;      // untimed wait() only if the variable certainly ends inactive (then every waiter must be released)
+    }
+    bool untimed_wait_ok = (!fin.A || fin.T) && !untimed_wait_ok_override;
+    bool untimed_wact_ok = fin.A && !untimed_wait_ok_override;
 
     TvModel cur; cur.A = init_active;
     bool ctl_in_flight = false, t_known = true;
@@ -154,7 +172,7 @@ vh::Outcome run_trigger(const vh::Case& c) {
     std::vector<long> trig_ret(ctl.size(), -1);      // step at which the i-th controller op (a successful trigger) returned
     long last_act_call = init_active ? 0 : -1;       // call step of the latest activate() that the model says succeeds
     long last_tr_call = -1;                          // call step of the latest trigger()/reset()
-    bool lbl_probe = false, lbl_second = false;
+    bool lbl_probe = false, lbl_second = false, lbl_second_reset = false;
     struct CtlRec { long call, ret; TvModel after; };
     std::vector<CtlRec> ctl_log;                     // main controller calls with the model state after each
     int tr_in_flight = 0; long last_tr_ret = -1;     // trigger()/reset() calls of any thread: in flight now / latest return step
@@ -180,6 +198,7 @@ vh::Outcome run_trigger(const vh::Case& c) {
                 ctl_in_flight = false;
                 ctl_log.back().ret = vrt::now_step();
                 if (k == K_TRIGGER && exp) trig_ret[i] = vrt::now_step();
+                if (second_resetter) continue;      // results and intermediate states are order-dependent with a racing resetter
                 if (k != K_RESET && got != exp) vrt::fail("controller-result", std::string(k == K_ACTIVATE ? "activate" : "trigger") + "() returned " + (got ? "true" : "false") + ", model says " + (exp ? "true" : "false"));
                 if (tv.isActive() != cur.A) vrt::fail("controller-state", "isActive() disagrees with the model after a controller call");
                 // after reset() the property only promises "inactive" (and that blocked waiters were released): the value of
@@ -188,6 +207,14 @@ vh::Outcome run_trigger(const vh::Case& c) {
                 if (t_known && tv.isTriggered() != cur.T) vrt::fail("controller-state", "isTriggered() disagrees with the model after a controller call");
             }
         });
+        int n_second_resets = 0;
+        if (second_resetter) {
+            lbl_second_reset = true;
+            for (auto& op : c.fibers[1]) { (void)op; n_second_resets++; }
+            vrt::spawn([&] {
+                for (auto& op : c.fibers[1]) { for (int s2 = 0; s2 < op.b % 3; ++s2) vrt::step(); n_reset_called++; last_tr_call = vrt::now_step(); tr_in_flight++; tv.reset(); tr_in_flight--; last_tr_ret = vrt::now_step(); }
+            });
+        }
         if (second_triggerer) {
             // a second thread that only calls trigger(): results are judged with interval reasoning (the model alone is no longer exact for T)
             lbl_second = true;
@@ -216,13 +243,20 @@ vh::Outcome run_trigger(const vh::Case& c) {
             out_m = m; return true;
         };
         for (size_t i = 1; i < c.fibers.size(); ++i) {
-            if (c.fibers[i].empty() || (second_triggerer && i == 1)) continue;
+            if (c.fibers[i].empty() || ((second_triggerer || second_resetter) && i == 1)) continue;
             vrt::spawn([&, i] {
                 for (auto& op : c.fibers[i]) {
                     for (int s = 0; s < op.b % 3; ++s) vrt::step();
                     int kind = op.code % 4;         // 0 wait, 1 wait_for, 2 waitActivation, 3 wait_forActivation
                     if (kind == 0 && !untimed_wait_ok) kind = 1;
                     if (kind == 2 && !untimed_wact_ok) kind = 3;
+                    if (second_resetter) {
+                        // only termination is judged in this mode
+                        if (kind == 0 && all_finals_inactive) (void)tv.wait();
+                        else if (kind == 0 || kind == 1) (void)tv.wait_for(std::chrono::milliseconds(20)); else (void)tv.wait_forActivation(std::chrono::milliseconds(20));
+                        if (vrt::me().blocking_ops) lbl_blocked_wait = true;
+                        continue;
+                    }
                     TvModel s0 = cur; bool stable = !ctl_in_flight;
                     bool t_exact = !second_triggerer || (sec_in_flight == 0 && sec_last_ret < last_act_call);
                     long a0 = n_activate_called, t0 = n_trigger_called, r0 = n_reset_called;
@@ -280,6 +314,12 @@ vh::Outcome run_trigger(const vh::Case& c) {
             });
         }
         vrt::join_all();
+        if (second_resetter) {
+            // racing controllers: per-call results and even the final state are order dependent (the unchanged library itself produces final
+            // states no sequential order explains), so only this much is asserted: if every sequential order ends inactive, it ends inactive
+            if (all_finals_inactive && tv.isActive()) vrt::fail("final-state", "the variable is still active although every order of the controller calls ends with a reset()");
+            return;
+        }
         if (tv.isActive() != fin.A || (t_known && !second_triggerer && tv.isTriggered() != fin.T)) vrt::fail("final-state", "final state differs from the two-bit model");
     });
     if (lbl_blocked_wait) out.labels.push_back("waiter-blocked");
@@ -287,6 +327,7 @@ vh::Outcome run_trigger(const vh::Case& c) {
     if (lbl_timeout) out.labels.push_back("timed-out");
     if (lbl_probe) out.labels.push_back("probed-active-before-wait");
     if (lbl_second) out.labels.push_back("second-triggerer");
+    if (lbl_second_reset) out.labels.push_back("second-resetter");
     if (out.res.spurious_wakes) out.labels.push_back("spurious-wake");
     out.nontrivial = lbl_blocked_wait && !ctl.empty();
     return out;
